@@ -37,7 +37,8 @@ TRUSTED = [
     "C09: round(x, 1) on an IEEE double is compared with the exact rational rounded half-even (tolerance 1e-9) and, within 1e-7 of a rounding tie, with +-0.05 of the exact value",
 ]
 ASSUMPTIONS = [
-    "interface/device names: non-empty, no NUL, no ASCII whitespace as str.strip()/str.split() define it at either end (interfaces) or anywhere (disks), no '\\n'/'\\r'; non-ASCII Unicode spaces (U+0085, U+00A0, U+2028…) encoded in UTF-8 inside a name are outside the byte-level model",
+    "interface names: non-empty, no NUL, no '\\n'/'\\r', first and last byte not removed by the strip the code applies (theorems C09_net*: WFName netCfg.nameWs); the full-strength statement for every name free of C-locale whitespace is C09_net_every_kernel_name_Full (proved for `.strip(' ')`, refuted for the bare `.strip()`: finding C09-net-name-strip); with the bare strip() the UTF-8 encodings of Unicode spaces at the ends of a name are stripped by the code but not by the byte-level model (inside the finding's region only)",
+    "disk names: one non-empty token for str.split() (no ASCII whitespace incl. 0x1c-0x1f, no NUL; not '.' or '..'; distinct after the / -> ! mapping); UTF-8 encoded Unicode spaces inside a disk name are outside the byte-level model (never generated: kernel disk names are driver-chosen ASCII)",
     "device names are unique within one /proc file for the round-trip/sum theorems (the model itself keeps dict-overwrite semantics and the correspondence exercises duplicates)",
     "nowrap=False (nowrap=True post-processing is property C10); /proc/diskstats exists (the /sys/block/*/stat fallback read_sysfs is not modelled)",
 ]
@@ -85,6 +86,7 @@ def _net_facts(tree):
         raise NotRecognised("net_io_counters: loop is not over lines[k:]")
     skip = 0 if it.slice.lower is None else L.const(it.slice.lower)
     rfind = unpack = output = None
+    strip = "?"
     for st in loop.body:
         if isinstance(st, ast.Assign) and len(st.targets) == 1:
             tgt, val = st.targets[0], st.value
@@ -93,13 +95,22 @@ def _net_facts(tree):
                 if val.func.attr not in ("rfind", "find"):
                     raise NotRecognised("colon = line.%s(':')" % val.func.attr)
                 rfind = val.func.attr == "rfind"
+            elif L.dotted(tgt) == "name" and isinstance(val, ast.Call) and isinstance(val.func, ast.Attribute) \
+                    and val.func.attr == "strip" and L.unparse(val.func.value) == "line[:colon]" and not val.keywords:
+                if len(val.args) == 0 or (len(val.args) == 1 and L.const(val.args[0]) is None):
+                    strip = None
+                elif len(val.args) == 1 and isinstance(L.const(val.args[0]), str) \
+                        and all(ord(ch) < 128 for ch in L.const(val.args[0])):
+                    strip = sorted(set(ord(ch) for ch in L.const(val.args[0])))
+                else:
+                    raise NotRecognised("name = line[:colon].strip(%s)" % L.unparse(val.args[0]))
             elif isinstance(tgt, ast.Tuple) and _is_map_int(val) and L.dotted(val.args[1]) == "fields":
                 unpack = _names(tgt)
             elif isinstance(tgt, ast.Subscript) and L.dotted(tgt.value) == "retdict" and L.dotted(tgt.slice) == "name":
                 output = _names(val)
-    if rfind is None or unpack is None or output is None:
-        raise NotRecognised("net_io_counters: colon/unpack/retdict statements not all recognised")
-    return {"skip": skip, "rfind": rfind, "unpack": unpack, "output": output}
+    if rfind is None or unpack is None or output is None or strip == "?":
+        raise NotRecognised("net_io_counters: colon/name/unpack/retdict statements not all recognised")
+    return {"skip": skip, "rfind": rfind, "unpack": unpack, "output": output, "strip": strip}
 
 
 def _guard(test):
@@ -380,6 +391,8 @@ def facts(snap, F):
               "names on the left of `= map(int, fields)` in net_io_counters, in order")
     F.try_add("netOutput", "List String", lambda: _strs(net()["output"]),
               "names in the tuple stored in retdict[name], in order")
+    F.try_add("netNameStrip", "Option (List Nat)", lambda: L.lean_opt(net()["strip"], lambda cs: L.lean_list(cs, L.lean_nat)),
+              "`name = line[:colon].strip(<chars>)`: none = every whitespace character of str.strip(), some cs = only these")
     F.try_add("snetioFields", "List String", lambda: _strs(runtime()["snetio"]), "_common.snetio._fields")
     F.try_add("sdiskioFields", "List String", lambda: _strs(runtime()["sdiskio"]),
               "_pslinux.sdiskio._fields (the namedtuple the Linux front end uses)")
@@ -608,13 +621,31 @@ def gen_net_name(rng, fam):
     if fam == "high":
         n = rng.randrange(1, 9)
         return bytes(rng.choice(HIGH) if rng.random() < 0.6 else rng.choice(NAMECHARS) for _ in range(n))
+    if fam == "ctrledge":
+        # legal for the kernel (dev_valid_name only rejects '/', ':', isspace()), whitespace for str.strip()
+        return rng.choice([b"a\x1f", b"\x1ceth0", b"\x1d", b"eth0\x1e\x1f", b"eth\xc2\x85", b"\xe2\x80\xa8x",
+                           b"w\xe3\x80\x80", b"\xe1\x9a\x80"])
     if fam == "innerws":
         return rng.choice([b"a b", b"a\tb", b"a\x1fb", b"a\x1c\x1db", b"x  y z"])
     n = rng.randrange(1, 16)
     return bytes(rng.choice(NAMECHARS + b":/") for _ in range(n))
 
 
-NET_FAMS = ["plain", "plain", "colon", "colon", "slash", "digits", "high", "innerws", "random"]
+NET_FAMS = ["plain", "plain", "colon", "colon", "slash", "digits", "high", "innerws", "random", "ctrledge"]
+
+FINDING_STRIP = "C09-net-name-strip"
+
+
+def in_strip_region(op):
+    """region of finding C09-net-name-strip: some interface name begins or ends with a character that
+    str.strip() removes (the names are free of C-locale whitespace by construction)"""
+    if op.get("op") != "net":
+        return False
+    for i in op["ifs"]:
+        s = os.fsdecode(bytes.fromhex(i["name"]))
+        if s != s.strip():
+            return True
+    return False
 
 
 def gen_net_case(rng):
@@ -922,6 +953,36 @@ def judge(op, im, mo, sp):
     return None
 
 
+def stripped_expectation(op, sp):
+    """the recorded defective behaviour of finding C09-net-name-strip, derived from the specification's
+    per-interface values: names str.strip()ped, a later interface overwriting an earlier one of the same
+    stripped name, totals summed over what is left"""
+    rows = {}
+    for i in op["ifs"]:
+        nm = os.fsencode(os.fsdecode(bytes.fromhex(i["name"])).strip()).hex()
+        c = i["cols"]
+        rows[nm] = [["bytes_sent", c[8]], ["bytes_recv", c[0]], ["packets_sent", c[9]], ["packets_recv", c[1]],
+                    ["errin", c[2]], ["errout", c[10]], ["dropin", c[3]], ["dropout", c[11]]]
+    if op["pernic"]:
+        return {"kind": "perdev", "devs": sorted([k, v] for k, v in rows.items())}
+    vals = list(rows.values())
+    return {"kind": "total", "fields": [[vals[0][j][0], sum(v[j][1] for v in vals)] for j in range(8)]}
+
+
+def check_finding(ctx, fnd):
+    if fnd.get("id") != FINDING_STRIP:
+        return "unknown"
+    impl = Impl(ctx)
+    try:
+        op = fnd["witness"]["input"]
+        (im, mo, sp, _), = run_ops(ctx, impl, [op])[0]
+        if im == sp:
+            return "gone"
+        return "reproduces" if im == stripped_expectation(op, sp) else "changed"
+    finally:
+        impl.close()
+
+
 def corpus_ops():
     """clause-directed seeds that always run first"""
     def iface(name, base):
@@ -936,6 +997,8 @@ def corpus_ops():
         ops.append(({"op": "net", "h1": H1.hex(), "h2": H2.hex(), "pernic": per,
                      "ifs": [iface(b"lo", 0), iface(b"eth0:1", 100), iface(b"a:b: 7 8", 200), iface(b"x/y", 300),
                              iface(b"123", 2**64 - 20)]}, {"n": 5, "fams": ["colon", "digits", "plain", "slash"]}))
+        ops.append(({"op": "net", "h1": H1.hex(), "h2": H2.hex(), "pernic": per,
+                     "ifs": [iface(b"a", 0), iface(b"a\x1f", 100)]}, {"n": 2, "fams": ["ctrledge"]}))
         ops.append(({"op": "disk", "devs": [], "perdisk": per}, {"n": 0, "layouts": [], "whole": 0}))
         # the test-suite's three pinned lines, one file, plus 18/20-field lines and a cciss disk with partitions
         ops.append(({"op": "disk", "perdisk": per, "devs": [
@@ -1045,11 +1108,20 @@ def correspond(ctx, res):
             res.case(o, nontrivial=nontrivial,
                      sample={"input": o, "impl": im} if src == "random" and len(res.samples) < 5 and nontrivial else None)
             verdict = judge(o, im, mo, sp)
+            fid = None
+            if verdict is not None and in_strip_region(o) and any(f.get("id") == FINDING_STRIP for f in ctx.findings):
+                # inside the region of a listed finding the only accepted deviation is the recorded one:
+                # the same table with every name str.strip()ped (later duplicates overwrite) - anything else is new
+                if im == stripped_expectation(o, sp):
+                    fid = FINDING_STRIP
+                    res.known_seen[fid] = res.known_seen.get(fid, 0) + 1
+            if in_strip_region(o):
+                res.count("net:name-with-strip()-able-end")
             if verdict == "spec":
                 res.disagree("spec", o, im, mo, sp, note="implementation differs from the specification "
-                             "(kernel-rendered input → documented fields)")
+                             "(kernel-rendered input → documented fields)", finding=fid)
             elif verdict == "model":
-                res.disagree("model", o, im, mo, sp, note="implementation differs from the Lean model")
+                res.disagree("model", o, im, mo, sp, note="implementation differs from the Lean model", finding=fid)
         res.exhaustive = ("%d cases: every field count 0..25 of a /proc/diskstats line (alone / after a valid line, "
                           "perdisk both ways), every counter count 0..20 of a /proc/net/dev line, every header-line "
                           "count 0..3; the table/usage cases are samples") % n_exh
